@@ -1142,6 +1142,11 @@ func (db *DB) handleMemTableFlush(mt *memTable, dropPrefixes [][]byte) error {
 	if err != nil {
 		return y.Wrap(err, "error while creating table")
 	}
+	// The MANIFEST is about to reference the new table: make sure its directory
+	// entry is durable first (compactions do the same in compactBuildTables).
+	if err := db.syncDir(db.opt.Dir); err != nil {
+		return y.Wrap(err, "error while syncing directory after creating table")
+	}
 	// We own a ref on tbl.
 	vhook.Point("flusher.tableBuilt")
 	err = db.lc.addLevel0Table(tbl) // This will incrRef
